@@ -216,3 +216,33 @@ VP_HARNESS(h_valid_packet)
     else if (t == PayloadType::ifStatMsg)
         accessIf(static_cast<const InterfacePayload&>(p), len);
 }
+
+// The message-level gate alone, every header byte symbolic (declared length over all 65536 values): it accepts exactly the
+// messages whose header fits, whose declared payload fits behind it, that carry no error flag and a non-zero payload type.
+// GSZ >= 0: exact GSZ-byte buffer; GSZ = -1: 16-byte header object and the size argument symbolic over all values >= 16
+// (the gate reads the header only - checked by the pointer checks of the same run).
+#ifdef GSZ
+VP_HARNESS(h_packet_gate)
+{
+#if GSZ >= 0
+    const size_t sz = GSZ, alloc = GSZ;
+#else
+    const size_t sz = vp_u64(), alloc = 16;
+    vp_assume(sz >= 16);
+#endif
+    static uint8_t hb[GSZ > 16 ? GSZ : 16];
+    vp_bytes(hb, alloc);
+    uint8_t* buf = static_cast<uint8_t*>(operator new(alloc ? alloc : 1));
+    for (size_t i = 0; i < alloc; ++i)
+        buf[i] = hb[i];
+    const bool ok = Packet::isValidPacket(buf, sz);
+    if (sz < 16)
+    {
+        vp_assert(!ok, "C03: a buffer shorter than the message header is rejected");
+        return;
+    }
+    const uint64_t declared = vp_be16(hb + 14);
+    const bool expect = declared <= sz - 16 && !(hb[12] & 0x40) && hb[13] != 0;
+    vp_assert(ok == expect, "C03: the message gate accepts exactly the messages whose declared payload fits the buffer (no error flag, non-zero type)");
+}
+#endif
